@@ -142,6 +142,13 @@ func main() {
 			}
 			p.DumpFn(fn)
 		}
+	case "dump-loops":
+		p, err := an.Load(parseConfig(o.config, o.repo))
+		if err != nil {
+			fmt.Println(err)
+			os.Exit(1)
+		}
+		an.DumpLoops(p)
 	case "dump-e3":
 		p, err := an.Load(parseConfig(o.config, o.repo))
 		if err != nil {
